@@ -406,19 +406,19 @@ pub(crate) mod verif_c09 {
         assert!(writes <= 1);
         kani::cover!(last.is_some() && p.x == 2 && p.y == 1);
     }
-    //@harness prop=C09,C01 kind=bounded tier=quick class=P bound="image <= 3x2" fns=src/image/mod.rs::Image::draw;src/image/mod.rs::Image::bounding_box
+    //@harness prop=C09,C01,C02 kind=bounded tier=quick class=P bound="image <= 3x2" fns=src/image/mod.rs::Image::draw;src/image/mod.rs::Image::bounding_box
     #[kani::proof]
     #[kani::unwind(8)]
     fn c09_draw_probe_native_bpp1_be() { let b: [u8; L] = kani::any(); draw_probe::<BinaryColor, BigEndianLsb0>(&b, true); }
-    //@harness prop=C09,C01 kind=bounded tier=quick class=P bound="image <= 3x2"
+    //@harness prop=C09,C01,C02 kind=bounded tier=quick class=P bound="image <= 3x2"
     #[kani::proof]
     #[kani::unwind(8)]
     fn c09_draw_probe_iter_bpp1_be() { let b: [u8; L] = kani::any(); draw_probe::<BinaryColor, BigEndianLsb0>(&b, false); }
-    //@harness prop=C09,C01 kind=bounded tier=quick class=P bound="image <= 3x2"
+    //@harness prop=C09,C01,C02 kind=bounded tier=quick class=P bound="image <= 3x2"
     #[kani::proof]
     #[kani::unwind(8)]
     fn c09_draw_probe_native_bpp16() { let b: [u8; L] = kani::any(); draw_probe::<Rgb565, LittleEndianMsb0>(&b, true); }
-    //@harness prop=C09,C01 kind=bounded tier=quick class=P bound="image <= 3x2"
+    //@harness prop=C09,C01,C02 kind=bounded tier=quick class=P bound="image <= 3x2"
     #[kani::proof]
     #[kani::unwind(8)]
     fn c09_draw_probe_iter_bpp16() { let b: [u8; L] = kani::any(); draw_probe::<Rgb565, LittleEndianMsb0>(&b, false); }
